@@ -524,29 +524,40 @@ theorem digitsFuel_no_bar : ∀ (f n : Nat), ∀ c ∈ digitsFuel f n, (c != '|'
       · exact ih _ c hc
       · exact digit_ne_bar _ (Nat.mod_lt _ (by decide))
 
-/-- the base key of an entry whose name has no `|` is `name ++ qtype` -/
-theorem baseKeyOf_plain (n : List Char) (t : Nat) (sc : Scope) (h : ∀ c ∈ n, (c != '|') = true) :
-    baseKeyOf ⟨n, t, sc⟩ = n ++ natDigits t := by
+theorem clsSuffix_no_bar (c : Nat) : ∀ x ∈ clsSuffix c, (x != '|') = true := by
+  intro x hx
+  unfold clsSuffix at hx
+  split at hx
+  · cases hx
+  · rcases List.mem_cons.mp hx with rfl | hx
+    · decide
+    · exact digitsFuel_no_bar _ _ x hx
+
+/-- the base key of an entry whose name has no `|` is `name ++ qtype (++ #class)` -/
+theorem baseKeyOf_plain (n : List Char) (t : Nat) (sc : Scope) (cl : Nat) (h : ∀ c ∈ n, (c != '|') = true) :
+    baseKeyOf ⟨n, t, sc, cl⟩ = n ++ (natDigits t ++ clsSuffix cl) := by
   unfold baseKeyOf
   apply takeWhile_all
   intro c hc
   rcases List.mem_append.mp hc with hc | hc
   · exact h c hc
-  · exact digitsFuel_no_bar _ _ c hc
+  · rcases List.mem_append.mp hc with hc | hc
+    · exact digitsFuel_no_bar _ _ c hc
+    · exact clsSuffix_no_bar cl c hc
 
-/-- ... and of an entry whose name contains `|` it is a proper prefix of the name: never `name ++ qtype` -/
-theorem baseKeyOf_bar (n : List Char) (t : Nat) (sc : Scope) (h : ∃ c ∈ n, (c != '|') = false) :
-    baseKeyOf ⟨n, t, sc⟩ ≠ n ++ natDigits t := by
+/-- ... and of an entry whose name contains `|` it is a proper prefix of the name: never the question's key -/
+theorem baseKeyOf_bar (n : List Char) (t : Nat) (sc : Scope) (cl : Nat) (h : ∃ c ∈ n, (c != '|') = false) :
+    baseKeyOf ⟨n, t, sc, cl⟩ ≠ n ++ (natDigits t ++ clsSuffix cl) := by
   intro heq
-  have h1 := takeWhile_length_lt (· != '|') n (natDigits t) h
+  have h1 := takeWhile_length_lt (· != '|') n (natDigits t ++ clsSuffix cl) h
   unfold baseKeyOf at heq
   rw [heq] at h1
   simp only [List.length_append] at h1
   omega
 
-theorem lookup_removeFamily_same (c : Cache) (n : List Char) (t : Nat) (sc : Scope)
+theorem lookup_removeFamily_same (c : Cache) (n : List Char) (t : Nat) (sc : Scope) (cl : Nat)
     (hn : ∀ x ∈ n, (x != '|') = true) :
-    (Cache.removeFamily c n t).lookup ⟨n, t, sc⟩ = none := by
+    (Cache.removeFamily c n t cl).lookup ⟨n, t, sc, cl⟩ = none := by
   induction c with
   | nil => rfl
   | cons e es ih =>
@@ -555,17 +566,17 @@ theorem lookup_removeFamily_same (c : Cache) (n : List Char) (t : Nat) (sc : Sco
     split
     · rename_i h
       simp only [List.find?_cons]
-      have : (e.1 == (⟨n, t, sc⟩ : CacheKey)) = false := by
+      have : (e.1 == (⟨n, t, sc, cl⟩ : CacheKey)) = false := by
         rw [beq_eq_false_iff_ne]
         intro heq
-        rw [heq, baseKeyOf_plain n t sc hn] at h
+        rw [heq, baseKeyOf_plain n t sc cl hn] at h
         simp at h
       simp only [this]
       exact ih
     · exact ih
 
-theorem lookup_removeFamily_other (c : Cache) (n : List Char) (t : Nat) (k : CacheKey)
-    (h : baseKeyOf k ≠ n ++ natDigits t) : (Cache.removeFamily c n t).lookup k = c.lookup k := by
+theorem lookup_removeFamily_other (c : Cache) (n : List Char) (t cl : Nat) (k : CacheKey)
+    (h : baseKeyOf k ≠ n ++ (natDigits t ++ clsSuffix cl)) : (Cache.removeFamily c n t cl).lookup k = c.lookup k := by
   induction c with
   | nil => rfl
   | cons e es ih =>
@@ -658,6 +669,34 @@ theorem dialSend_trace_le (cfg : Cfg) (q? : Option Question) (ans : Upstreams) :
           have := ih (d + 1) (.up k) (by omega)
           simp only [hs, ha, Bool.not_true, Bool.false_eq_true, if_false, List.length_cons]; omega
 
+/-- whatever `dialSend` finally returns answers the client's question (name up to case, type, class) -/
+theorem dialSend_ok_answers (cfg : Cfg) (q? : Option Question) (ans : Upstreams) :
+    ∀ (n d : Nat) (u : UpRef) (r : Resp), cfg.maxDepth - d = n → (dialSend cfg q? ans d u).2 = .ok r →
+      answersQuestion q? r = true := by
+  intro n
+  induction n with
+  | zero =>
+    intro d u r h hr
+    rw [dialSend_deep cfg q? ans d u (by omega)] at hr; cases hr
+  | succ n ih =>
+    intro d u r h hr
+    rw [dialSend_step cfg q? ans d u (by omega)] at hr
+    cases h0 : ans d u with
+    | none => simp [h0] at hr
+    | some r0 =>
+      cases ha : answersQuestion q? r0 with
+      | false => simp [h0, ha] at hr
+      | true =>
+        cases hs : responseSelect cfg r0 u with
+        | err e => simp [h0, ha, hs] at hr
+        | accept => simp [h0, ha, hs] at hr; subst hr; exact ha
+        | reject =>
+          simp [h0, ha, hs] at hr; subst hr
+          unfold answersQuestion at ha ⊢; exact ha
+        | next k =>
+          simp only [h0, ha, hs, Bool.not_true, Bool.false_eq_true, if_false] at hr
+          exact ih (d + 1) (.up k) r (by omega) hr
+
 /-! ## concrete data for the non-vacuity examples of Props.lean -/
 namespace Ex
 
@@ -698,8 +737,8 @@ def cfg2 : Cfg := { nUp := 2, req := (compileRequest reqRules 0xFD).getD default
 def cfgRejectAll : Cfg := { nUp := 0, req := (compileRequest [] 0xFC).getD default, resp := (compile [] 0xFC).getD default }
 def qCached : Question := { name := "Ads.Example.COM.".toList, qtype := 1, rx := [] }
 def cacheWithAnswer : Cache :=
-  [(⟨"ads.example.com.".toList, 1, .asis 1⟩, [.a 0x01020304]), (⟨"ads.example.com.".toList, 1, .up 0⟩, [.a 0x05060708]),
-   (⟨"other.test.".toList, 1, .asis 1⟩, [.a 0x09090909])]
+  [(⟨"ads.example.com.".toList, 1, .asis 1, 1⟩, [.a 0x01020304]), (⟨"ads.example.com.".toList, 1, .up 0, 1⟩, [.a 0x05060708]),
+   (⟨"other.test.".toList, 1, .asis 1, 1⟩, [.a 0x09090909])]
 
 /-- response rules `upstream(u0) -> u1; upstream(u1) -> u0; fallback: u0`: every answer is sent on -/
 def bounceRules : List SrcRule := [⟨[.upstream false [0]], 1⟩, ⟨[.upstream false [1]], 0⟩]
